@@ -563,6 +563,9 @@ package gorm
 //@   assert through-on-conflict: viaOnConflict != 0 && ref(arg0) == viaOnConflict [C16]
 
 //@ # handle identity fields are set when a handle is created and never afterwards
+//@ immutable Statement.Clauses
+//@   writers gorm.(*Statement).clone gorm.(*DB).getInstance gorm.(*DB).Session gorm.Open gorm.(*DB).*
+//@   tags C15 C06
 //@ immutable DB.clone
 //@   writers gorm.(*DB).Session gorm.(*DB).getInstance gorm.Open gorm.(*DB).*
 //@   tags C16 C15 C06
